@@ -34,7 +34,7 @@ TOK = ["{{T||1=x}}", "{{a|", "|1=", "||", "a", " ", "\n", "==", "===", "=", "* "
        "</span x>", "<nowiki>", "</nowiki>", "<nowiki/>", "<!--", "-->", "<div>", "</div>", "<table>", "<tr>", "<td>", "</td>",
        "</tr>", "</table>", "<li>", "<ul>", "</ul>", "__TOC__", "-{", "}-", "&amp;", "<math>", "</math>", "<hiero>", "</x>",
        "[[File:a.png|thumb|", "[//e.org:443 s]", "</br/>", "<span class={{a}}>", "<b id=a<nowiki/>b>", "<pre class={{a|x}}>",
-       "<div id={{{1}}}>"]
+       "<div id={{{1}}}>", "<noinclude/>", "<section begin=a/>", "</section>", "[[dog]]s", "[sic]"]
 LIST_KINDS = {NodeKind.LIST}
 MAGIC_LO = MAGIC_NUMBER
 
@@ -213,6 +213,13 @@ for _ in range(4000 if tier == "quick" else 150000):
     text = "".join(rng.choice(TOK) for _ in range(k))
     run(text, rng.choice(OPTS), "random-soup")
 # line-structured documents: block-level markers at line starts, nested lists / tables / refs
+# a link trail followed by a token the parser drops silently, then more word characters; cookies that are kept as
+# text (inside <pre>, inside attribute values) whose own arguments contain <nowiki/> or a bracketed word
+for t in ("[[dog]]s<noinclude/>x", "[[dog]]s<section begin=a/>x y", "[[dog]]<noinclude/>s</section>t", "{|\n[[a]]b|-c\n|}",
+          "<pre>{{foo|a<nowiki/>b}}</pre>", "<pre>{{quote|[sic] said}}</pre>", "<span class='{{foo|[x]}}'>y</span>",
+          "<pre>[[a|b<nowiki/>c]] {{{1|[d]}}}</pre>", '{| class="{{foo|[x]}}"\n| c\n|}'):
+    for o in OPTS_ALL if "OPTS_ALL" in globals() else ({}, {"pre_expand": True}, {"expand_all": True}):
+        run(t, o, "fixed-documents")
 # diagnostics raised while a heading is still open
 for t in ("== <b>Etymology ==", "=== Noun</span> ===\ntext </b>", "== a\n</div>", "==<i>x==\n{{a|"):
     run(t, {}, "open-heading-diagnostics")
